@@ -16,9 +16,12 @@ OFFSETS = [0, 1]
 WFS = [0, 1, 2]
 
 
+SCALE = 1.0     # magnitude of every stored number (a check sets it for the duration of one case)
+
+
 def value(rep, cfg, name, qi, off, w, w2, t, im):
     ni = sorted(CORRS).index(name)
-    return (1.0 + 0.2 * rep + 0.003 * cfg + 10.0 * ni + 1.3 * qi + 0.41 * off + 0.057 * w + 0.0071 * w2 + 0.11 * t
+    return SCALE * (1.0 + 0.2 * rep + 0.003 * cfg + 10.0 * ni + 1.3 * qi + 0.41 * off + 0.057 * w + 0.0071 * w2 + 0.11 * t
             + (100.0 if im else 0.0) + 0.0001 * ((cfg * 3 + t + w) % 7))
 
 
